@@ -1,5 +1,6 @@
 \* the code as it is, validator 2 is NOT a proposer (proposer(1,0) = 3); rounds 0, one height,
 \* one valid peer value, votes from peers 1 and 3; every crash point, one crash or graceful stop (5 inputs); the 4-input configuration with 2 restarts runs in both tiers
+\* Measured: 2,011,018 distinct states.
 CONSTANTS
   NV = 4
   PowerOf <- DrvPowerOf
